@@ -115,6 +115,18 @@ func init() {
 			fr.i.doCover(argString(args[0]))
 			return nil
 		},
+		"verifExpect": func(fr *frame, args []value) value {
+			r := fr.i.run
+			r.mu.Lock()
+			for _, l := range variadic(args[0]) {
+				label := argString(l)
+				if r.covers[label] == nil {
+					r.covers[label] = &CoverInfo{Label: label, Status: "unknown"}
+				}
+			}
+			r.mu.Unlock()
+			return nil
+		},
 		"verifTier": func(fr *frame, args []value) value { return fr.i.run.opts.Tier },
 		"verifAssertKnown": func(fr *frame, args []value) value {
 			// verifAssertKnown(c, label, kfID, inClass): like verifAssert, but if kfID is a
